@@ -124,14 +124,16 @@ def run_c11(rep, tier, only=None):
         for k, (i, c, prov, want) in enumerate(BIND):
             if prov is None or only == "ivalue":
                 continue
-            pkg = "b%d" % k
-            d = ws.root + "/" + pkg
-            os.makedirs(d)
-            open(d + "/t.go", "w").write(TYPES.format(pkg=pkg))
-            open(d + "/wire.go", "w").write(
-                "//go:build wireinject\n// +build wireinject\n\npackage %s\n\nimport (\n\t\"example.com/c/blib\"\n\t\"github.com/google/wire\"\n)\n\n"
-                "var _ blib.I\n\nfunc Init() %s {\n\tpanic(wire.Build(%s, wire.Bind(new(%s), new(%s))))\n}\n" % (pkg, i, prov, i, c))
-            plan.append((pkg, "wire.Bind(new(%s), new(%s))" % (i, c), want))
+            # the marker functions reached through the plain, a dot and a renamed import: the meaning of the call is the same
+            for form, imp, q in (("", '"github.com/google/wire"', "wire."), ("d", '. "github.com/google/wire"', ""), ("r", 'wr "github.com/google/wire"', "wr.")):
+                pkg = "b%s%d" % (form, k)
+                d = ws.root + "/" + pkg
+                os.makedirs(d)
+                open(d + "/t.go", "w").write(TYPES.format(pkg=pkg))
+                open(d + "/wire.go", "w").write(
+                    "//go:build wireinject\n// +build wireinject\n\npackage %s\n\nimport (\n\t\"example.com/c/blib\"\n\t%s\n)\n\n"
+                    "var _ blib.I\n\nfunc Init() %s {\n\tpanic(%sBuild(%s, %sBind(new(%s), new(%s))))\n}\n" % (pkg, imp, i, q, prov, q, i, c))
+                plan.append((pkg, "%sBind(new(%s), new(%s))%s" % (q, i, c, " (wire dot-imported)" if form == "d" else ""), want))
         for k, (i, e, want) in enumerate(IVALUE):
             pkg = "v%d" % k
             d = ws.root + "/" + pkg
